@@ -14,6 +14,7 @@ import (
 	aptypes "github.com/elys-network/elys/x/assetprofile/types"
 	otypes "github.com/elys-network/elys/x/oracle/types"
 	ptypes "github.com/elys-network/elys/x/parameter/types"
+	perpkeeper "github.com/elys-network/elys/x/perpetual/keeper"
 	perptypes "github.com/elys-network/elys/x/perpetual/types"
 	vrf "github.com/elys-network/elys/zzvrf"
 	"github.com/elys-network/elys/zzvrf/wire"
@@ -40,7 +41,7 @@ func (a ammW) SwapOutAmtGivenIn(ctx sdk.Context, poolId uint64, o ammtypes.Oracl
 	z := sdkmath.LegacyZeroDec()
 	*a.n++
 	tag := string(rune('0' + *a.n))
-	if !estNoFail && vrf.Bool("estFails"+tag) {
+	if a.fails(tag) {
 		return sdk.Coin{}, z, z, z, z, ammtypes.ErrAmountTooLow
 	}
 	out := vrf.Int("estOut" + tag)
@@ -52,7 +53,7 @@ func (a ammW) SwapInAmtGivenOut(ctx sdk.Context, poolId uint64, o ammtypes.Oracl
 	z := sdkmath.LegacyZeroDec()
 	*a.n++
 	tag := string(rune('0' + *a.n))
-	if !estNoFail && vrf.Bool("estFails"+tag) {
+	if a.fails(tag) {
 		return sdk.Coin{}, z, z, z, z, ammtypes.ErrAmountTooLow
 	}
 	in := vrf.Int("estIn" + tag)
@@ -61,8 +62,25 @@ func (a ammW) SwapInAmtGivenOut(ctx sdk.Context, poolId uint64, o ammtypes.Oracl
 }
 
 // estNoFail: in steps whose caller fails the whole transaction on an estimate error (rolled back by baseapp)
-// the failing branch of the estimates is not explored
-var estNoFail bool
+// the failing branch of the estimates is not explored.
+// estFailOnce: at most one estimate call fails, the failAt-th (a symbolic index; 0 = none): linear instead of
+// exponential in the number of estimate calls, for handlers that swallow the error and carry on.
+var (
+	settledThisBlock bool // the explicit position's interest and funding were last settled in the current block
+	estNoFail        bool
+	estFailOnce      bool
+	failAt           int64
+)
+
+func (a ammW) fails(tag string) bool {
+	if estNoFail {
+		return false
+	}
+	if estFailOnce {
+		return int64(*a.n) == failAt
+	}
+	return vrf.Bool("estFails" + tag)
+}
 
 type side struct{ liab, cust, coll sdkmath.Int }
 
@@ -216,17 +234,17 @@ func open(pos perptypes.Position, collDenom string) {
 
 //vrf:cover open-ok
 //vrf:bound 1 new LONG position with uusdc collateral from a symbolic pool state (aggregates = symbolic sums of the other positions), symbolic leverage in (1,25], collateral, prices; amm estimates havocked
-//vrf:max-paths 3000
+//vrf:max-paths 1500
 func H_Open_Long_UsdcCollateral() { open(perptypes.Position_LONG, usdc) }
 
 //vrf:cover open-ok
 //vrf:bound 1 new LONG position with trading-asset collateral
-//vrf:max-paths 3000
+//vrf:max-paths 1500
 func H_Open_Long_AtomCollateral() { open(perptypes.Position_LONG, atom) }
 
 //vrf:cover open-ok
 //vrf:bound 1 new SHORT position (uusdc collateral)
-//vrf:max-paths 3000
+//vrf:max-paths 1500
 func H_Open_Short() { open(perptypes.Position_SHORT, usdc) }
 
 // ---- steps on an existing position: funding / interest settlement, close ----
@@ -234,7 +252,9 @@ func H_Open_Short() { open(perptypes.Position_SHORT, usdc) }
 // setupPos: setup() plus one stored position of the trader (LONG with uusdc collateral, or SHORT) whose amounts are
 // part of the pool aggregates; interest and funding were last settled 10 blocks / 60 s ago and cumulative
 // rate blocks with symbolic values exist for both ends of the interval
-func setupPos(pos perptypes.Position) (*state, perptypes.MTP) {
+func setupPos(pos perptypes.Position) (*state, perptypes.MTP) { return setupPosColl(pos, usdc) }
+
+func setupPosColl(pos perptypes.Position, collAsset string) (*state, perptypes.MTP) {
 	s := setup()
 	env, ctx := s.env, s.env.Ctx
 	env.Param.SetParams(ctx, ptypes.DefaultParams())
@@ -249,12 +269,16 @@ func setupPos(pos perptypes.Position) (*state, perptypes.MTP) {
 	}
 	tp := vrf.Dec("takeProfitPrice")
 	vrf.Assume(tp.IsPositive())
-	m := perptypes.NewMTP(ctx, trader.String(), usdc, atom, liabAsset, custAsset, pos, tp, 1)
+	m := perptypes.NewMTP(ctx, trader.String(), collAsset, atom, liabAsset, custAsset, pos, tp, 1)
 	m.Id = 1
 	m.Custody, m.Liabilities, m.Collateral, m.BorrowInterestUnpaidLiability = cust, liab, coll, unpaid
 	m.OpenPrice = sdkmath.LegacyOneDec()
 	m.LastInterestCalcBlock, m.LastInterestCalcTime = 90, now-60
 	m.LastFundingCalcBlock, m.LastFundingCalcTime = 90, now-60
+	if settledThisBlock {
+		m.LastInterestCalcBlock, m.LastInterestCalcTime = 100, now
+		m.LastFundingCalcBlock, m.LastFundingCalcTime = 100, now
+	}
 	if err := env.Perp.SetMTP(ctx, m); err != nil {
 		vrf.Fail("SetMTP: " + err.Error())
 	}
@@ -272,7 +296,7 @@ func setupPos(pos perptypes.Position) (*state, perptypes.MTP) {
 		if a.AssetDenom == liabAsset {
 			a.Liabilities = a.Liabilities.Add(liab)
 		}
-		if a.AssetDenom == usdc {
+		if a.AssetDenom == collAsset {
 			a.Collateral = a.Collateral.Add(coll)
 		}
 	}
@@ -336,9 +360,11 @@ func H_SettleFunding_Long() { settleFunding(perptypes.Position_LONG) }
 //vrf:bound 1 explicit SHORT position + symbolic remainder; as above
 func H_SettleFunding_Short() { settleFunding(perptypes.Position_SHORT) }
 
-func closePos(pos perptypes.Position) {
+func closePos(pos perptypes.Position) { closePosColl(pos, usdc) }
+
+func closePosColl(pos perptypes.Position, collAsset string) {
 	estNoFail = true
-	s, m := setupPos(pos)
+	s, m := setupPosColl(pos, collAsset)
 	env, ctx := s.env, s.env.Ctx
 	amt := vrf.Int("closeAmount")
 	vrf.Assume(amt.IsPositive())
@@ -360,7 +386,83 @@ func closePos(pos perptypes.Position) {
 func H_Close_Long() { closePos(perptypes.Position_LONG) }
 
 //vrf:cover close-ok
+//vrf:bound 1 explicit LONG position with trading-asset collateral + symbolic remainder; close amount symbolic; amm estimates havocked
+//vrf:max-paths 6000
+//vrf:tier thorough
+func H_Close_Long_AtomCollateral() { closePosColl(perptypes.Position_LONG, atom) }
+
+//vrf:cover close-ok
 //vrf:bound 1 explicit SHORT position + symbolic remainder; close amount symbolic; amm estimates havocked
 //vrf:max-paths 6000
 //vrf:tier thorough
 func H_Close_Short() { closePos(perptypes.Position_SHORT) }
+
+// close-positions from a third party naming the trader's position in its liquidate list: the handler swallows the
+// per-position error, so whatever a failed liquidation leaves behind is part of the step
+func closePositions(pos perptypes.Position) { closePositionsColl(pos, usdc) }
+
+func closePositionsColl(pos perptypes.Position, collAsset string) {
+	estFailOnce = true
+	failAt = vrf.I64("failingEstimate", 0, 8)
+	s, _ := setupPosColl(pos, collAsset)
+	env, ctx := s.env, s.env.Ctx
+	srv := perpkeeper.NewMsgServerImpl(*env.Perp)
+	bot := sdk.AccAddress([]byte("third_party_________"))
+	_, err := srv.ClosePositions(ctx, &perptypes.MsgClosePositions{Creator: bot.String(), Liquidate: []perptypes.PositionRequest{{Address: trader.String(), Id: 1}}})
+	if err != nil {
+		return
+	}
+	vrf.Cover("done")
+	if m2, gerr := env.Perp.GetMTP(ctx, trader, 1); gerr != nil {
+		vrf.Cover("liquidated")
+	} else {
+		vrf.Observe("mtpCustody", m2.Custody)
+		vrf.Observe("mtpLiab", m2.Liabilities)
+		vrf.Observe("mtpUnpaid", m2.BorrowInterestUnpaidLiability)
+	}
+	pp2, _ := env.Perp.GetPool(ctx, 1)
+	ap2, _ := env.Amm.GetPool(ctx, 1)
+	for i, d := range []string{atom, usdc} {
+		vrf.Observe("book_"+d, ap2.PoolAssets[i].Token.Amount)
+		vrf.Observe("bank_"+d, env.W.BalOf(poolAddr, d))
+		vrf.Observe("longCust_"+d, pp2.PoolAssetsLong[i].Custody)
+		vrf.Observe("shortCust_"+d, pp2.PoolAssetsShort[i].Custody)
+	}
+	s.check("close-positions(liquidate)")
+}
+
+//vrf:cover done
+//vrf:bound 1 explicit LONG position + symbolic remainder named in the liquidate list of a third party's MsgClosePositions; amm estimates havocked (may fail); errors swallowed by the handler
+//vrf:max-paths 8000
+//vrf:tier thorough
+func H_ClosePositions_Long() { closePositions(perptypes.Position_LONG) }
+
+//vrf:cover done
+//vrf:bound as above, SHORT
+//vrf:max-paths 8000
+//vrf:tier thorough
+func H_ClosePositions_Short() { closePositions(perptypes.Position_SHORT) }
+
+//vrf:cover done
+//vrf:bound as H_ClosePositions_Long with trading-asset collateral (the quick-tier representative of the close / liquidation steps)
+//vrf:max-paths 8000
+func H_ClosePositions_Long_AtomCollateral() { closePositionsColl(perptypes.Position_LONG, atom) }
+
+// close right after a settlement in the same block (no interest or funding accrues): the quick-tier representative
+// of the owner's partial / full close
+//
+//vrf:cover close-ok
+//vrf:bound 1 explicit LONG position (uusdc collateral) + symbolic remainder, settled in the current block; close amount symbolic; amm estimates havocked
+//vrf:max-paths 4000
+func H_Close_Long_SameBlock() {
+	settledThisBlock = true
+	closePos(perptypes.Position_LONG)
+}
+
+//vrf:cover close-ok
+//vrf:bound as above, SHORT
+//vrf:max-paths 4000
+func H_Close_Short_SameBlock() {
+	settledThisBlock = true
+	closePos(perptypes.Position_SHORT)
+}
